@@ -851,10 +851,18 @@ func (fx *fnExec) oblige(name, kind string, st *State, goal *Term, pos token.Pos
 		if strings.HasPrefix(k, kind+":") && strings.Contains(name, k[len(kind)+1:]) {
 			partial = true
 		}
+		// `partial nopanic.explicit.2`: one obligation (or a family, by name prefix) of this unit
+		if name == k || strings.HasPrefix(name, k+".") {
+			partial = true
+		}
 	}
 	if partial {
 		// partial contract: this kind of obligation is assumed, not checked (listed in the evidence)
-		ex.Dropped["partial: "+kind+" obligations of "+ex.Unit+" are assumed, not checked"] = true
+		if ex.Partial[kind] {
+			ex.Dropped["partial: "+kind+" obligations of "+ex.Unit+" are assumed, not checked"] = true
+		} else {
+			ex.Dropped["partial: obligation "+name+" ("+src+") of "+ex.Unit+" is assumed, not checked"] = true
+		}
 		if kind == "nopanic" || kind == "pre" || kind == "assertcall" {
 			ex.assume(st, goal)
 		}
@@ -958,6 +966,10 @@ func (ex *Exec) emb(sname string, field int, ref *Term) *Term {
 		ex.embSeen[t] = true
 		tag := IntC(int64(ex.tagOf(fmt.Sprintf("emb:%s.%d", sname, field))))
 		ex.Assume = append(ex.Assume, And(Eq(App(inv, t), ref), Eq(App(ptagUF, t), tag), IntLt(IntC(0), t)))
+		// a struct/array embedded by value in an object that existed at entry existed at entry
+		// (needed where a loop frame keeps "objects allocated before the loop" unchanged)
+		a0 := initialHeap(allocKey, allocSort)
+		ex.Assume = append(ex.Assume, Implies(Select(a0, ref), Select(a0, t)))
 	}
 	return t
 }
